@@ -237,6 +237,9 @@ func newProcBlob(c *fw.Case, writable bool) (*procBlob, error) {
 	p := &procBlob{}
 	for tries := 0; tries < 5; tries++ {
 		p.blob = genBlob(c, sz, 20*int(sz.max))
+		if c.ChanceAdded(1, 3, "proc.dups") {
+			p.blob = genDupBlob(c, sz) // the same chunk at several places in the index
+		}
 		p.idx = mkIndex(p.blob, sz)
 		if len(p.idx.Chunks) >= 4 {
 			break
